@@ -306,6 +306,20 @@ def check_nearmiss(case):
     require(typed(got_value) == typed(expected[1]), 'value-differs',
             lambda: f'text {text!r}: Gin {b.value!r} / Python {expected[1]!r}')
     return ok(labels + ['nearmiss:accepted-agrees'], True)
+  if not has_ref(b.value) and REF_RE.search(text):
+    # A reference may have been written into a dict entry that a later equal key overwrote
+    # ({0: [@f], False: 0}): Gin's value then holds no reference although the text spells one.
+    # Python is asked about the text with the references replaced by string literals.
+    sub = REF_RE.sub(lambda m: repr(PLACEHOLDER % 0), text)
+    try:
+      replaced = py_eval(sub.strip(' \t\r\n\f'))
+    except Exception:  # pylint: disable=broad-except
+      replaced = None
+    else:
+      require(typed(got_value) == typed(replaced), 'value-differs',
+              lambda: f'text {text!r}: Gin {b.value!r} / Python (references as strings) {replaced!r}')
+      return ok(labels + ['nearmiss:accepted-agrees', 'nearmiss:reference-overwritten-by-equal-key'],
+                True)
   try:
     expected = py_eval(text)
   except TypeError:
